@@ -28,10 +28,13 @@ CONSTANTS Grid,      \* breakpoints that can be inserted (integers, unit 1/Q)
           MaxLen,    \* bound on the number of breakpoints
           MaxOps,    \* bound on the number of edits in a behaviour
           Variant,   \* "argmax" | "bisect"
+          Sharing,   \* "copy" (to_dict copies its lists) | "alias" (the reloaded object shares intervals/slopes
+                     \* with the object it was made from: a named variant, expected to be rejected)
           InitSets   \* set of initial breakpoint sequences
 
-VARIABLES iv, sl, ic, h
-vars == <<iv, sl, ic, h>>
+VARIABLES iv, sl, ic, h,
+          frozen    \* objects left behind by Reload (to_dict / from_dict): they must never change again
+vars == <<iv, sl, ic, h, frozen>>
 
 RECURSIVE Intercepts(_, _, _)
 \* _set_intercepts: ic[1] = 0, ic[i] = sl[i-1]*iv[i] + ic[i-1] - sl[i]*iv[i]
@@ -80,11 +83,16 @@ F(ivs, sls, x) == Integral(ivs, sls, x, 1)
 
 \* ---- behaviours
 Rec(a, x, s) == [act |-> a, x |-> x, s |-> s, iv |-> iv', sl |-> sl', ic |-> ic']
+\* what an edit of the live object does to the objects left behind
+Touch == IF Sharing = "alias" /\ Len(frozen) > 0
+         THEN frozen' = [frozen EXCEPT ![Len(frozen)] = [iv |-> iv', sl |-> sl', ic |-> @.ic]]
+         ELSE UNCHANGED frozen
 
 Init == /\ iv \in InitSets
         /\ sl \in [1..Len(iv) -> Slopes]
         /\ ic = Recompute(iv, sl)
         /\ h = <<[act |-> "construct", x |-> 0, s |-> 0, iv |-> iv, sl |-> sl, ic |-> ic]>>
+        /\ frozen = <<>>
 
 Insert(x, s) == /\ Len(iv) < MaxLen /\ Len(h) <= MaxOps
                 /\ LET p == Pos(Variant, iv, x) IN
@@ -92,16 +100,19 @@ Insert(x, s) == /\ Len(iv) < MaxLen /\ Len(h) <= MaxOps
                      /\ sl' = InsertAt(sl, p, s)
                 /\ ic' = Recompute(iv', sl')
                 /\ h' = Append(h, Rec("insert", x, s))
+                /\ Touch
 Pop(i) == /\ Len(h) <= MaxOps /\ i >= 1 /\ i < Len(iv)
           /\ iv' = RemoveAt(iv, i + 1) /\ sl' = RemoveAt(sl, i + 1)
           /\ ic' = Recompute(iv', sl')
           /\ h' = Append(h, Rec("pop", i, 0))
+          /\ Touch
 PopZero == /\ Len(h) <= MaxOps /\ h[Len(h)].act # "pop0"
-           /\ UNCHANGED <<iv, sl, ic>>                   \* refused: ValueError, no change
+           /\ UNCHANGED <<iv, sl, ic, frozen>>           \* refused: ValueError, no change
            /\ h' = Append(h, Rec("pop0", 0, 0))
 Reload == /\ Len(h) <= MaxOps /\ h[Len(h)].act # "reload"
           /\ UNCHANGED <<iv, sl>> /\ ic' = Recompute(iv, sl)
           /\ h' = Append(h, Rec("reload", 0, 0))
+          /\ frozen' = Append(frozen, [iv |-> iv, sl |-> sl, ic |-> ic])   \* the old object stays behind
 
 Next == \/ \E x \in Grid, s \in Slopes : Insert(x, s)
         \/ \E i \in 1..MaxLen : Pop(i)
@@ -118,6 +129,10 @@ ZeroAtZero == EvalQ(iv, sl, ic, 0) = 0
 Continuous == \A k \in 2..Len(iv) : sl[k - 1] * iv[k] + ic[k - 1] = sl[k] * iv[k] + ic[k]
 Unique == \A x \in Points : EvalQ(iv, sl, ic, x) = F(iv, sl, x)
 TypeOK == /\ iv \in Seq(Int) /\ sl \in Seq(Int) /\ ic \in Seq(Int)
+
+\* serialising and reloading leaves the original unchanged - also by later edits of the reloaded copy
+FrozenUntouched == [][\A i \in 1..Len(frozen) : frozen'[i] = frozen[i]]_vars
+FrozenConsistent == \A i \in 1..Len(frozen) : frozen[i].ic = Recompute(frozen[i].iv, frozen[i].sl)
 
 \* the algorithm refines the requirement (action properties)
 InsertRefines == [][h'[Len(h')].act = "insert" =>
